@@ -2,6 +2,6 @@ SPECIFICATION Spec
 CONSTANTS
   Bits = 8
   Poly = 285
-  Sample = E
+  Sample <- E
 INVARIANTS L_TableIsProduct L_Closed L_NoZeroDivisors L_Inverse L_Commutative L_OneZero L_Distributive L_Associative L_RowPermutation
 CHECK_DEADLOCK FALSE
